@@ -383,6 +383,12 @@ dump("C17","partitioner.go: the manual, round-robin and hash partitioners.",[
            AM("p.hasher.Write(bytes)",["tt","write_err"],["unit","gerr"]),
            A("p.referenceAbs","reference_abs","bool"),A("p.hasher.Sum32()","hash","Z")],
   "ignore":["p.hasher.Reset"]},
+ {"name":"writable_filter","file":"client.go","func":"client.setPartitionCache",
+  "doc":"which partitions of a topic are offered as writable: the filter loop over the topic's metadata as a list of (ID, Err) (same slice as C15's partition_filter; repeated here so that the C17 check regenerates it)",
+  "slice":{"first":"for range partitions","inputs":["partitionSet"]},
+  "state":[S("ret","ret","list Z")],
+  "params":[P("parts","list (Z * Z)")],
+  "atoms":[A("partitions","parts","list (Z * Z)"),A("partition.Err","(snd v_partition)","Z"),A("partition.ID","(fst v_partition)","Z")]},
 ]+W2_C17,imports=T2)
 
 dump("C19","admin.go: the bounded retry loop of the cluster admin and its error classification.",[
@@ -502,3 +508,101 @@ dump("C07","consumer_group.go: the error-class switches of newSession (join, syn
 dump("C05","config.go / utils.go: what Config.Validate requires of an idempotent producer; async_producer.go: ProducerMessage.clear.",W2_C05)
 dump("C11","consumer.go / fetch_response.go: transactional isolation — which record batches are exposed, aborted-transaction bookkeeping, kept Records, the sort order of aborted transactions.",W2_C11,imports=T2)
 dump("C20","mocks: offset bookkeeping of the sync producer mock and the expectation lookup of the consumer mock.",W2_C20,pkgdir="mocks",imports=T2)
+
+
+# ======================================================================================= C10: realDecoder primitive getters
+# State: rd.off (Z).  len(rd.raw) is the parameter raw_len; what the buffer holds at rd.off is a parameter per read
+# (the big-endian value, binary.Varint/Uvarint's (value, n)); byte slices / strings are returned as the half-open
+# range (start, end) of rd.raw they cover (None = nil / "" literal).  ideal_int: rd.off, len(rd.raw) and lengths
+# derived from them do not overflow int (64-bit platform).  Callees that are targets themselves are table calls
+# that also set rd.off (`sets`).
+RD=[S("rd.off","off","Z")]
+RL=[P("raw_len","Z")]
+def ERRS(*names): return [A(n,'(EVar "%s")'%n,"gerr") for n in names]
+LEN=A("len(rd.raw)","raw_len","Z")
+REM=C("rd.remaining","remaining ${rd.off} raw_len","Z")
+def G3(go,fn,args):
+    """callee returning (off', value, err): value/err as terms, rd.off as `sets`"""
+    t="(%s ${rd.off} %s)"%(fn,args)
+    return CM(go,["(snd (fst %s))"%t,"(snd %s)"%t],["Z","gerr"],sets={"rd.off":"(fst (fst %s))"%t})
+def G3o(go,fn,args,ty="option (Z * Z)"):
+    t="(%s ${rd.off} %s)"%(fn,args)
+    return CM(go,["(snd (fst %s))"%t,"(snd %s)"%t],[ty,"gerr"],sets={"rd.off":"(fst (fst %s))"%t})
+BE16=A("int16(binary.BigEndian.Uint16(rd.raw[rd.off:]))","rd_i16","Z")
+BE32=A("int32(binary.BigEndian.Uint32(rd.raw[rd.off:]))","rd_i32","Z")
+BE64=A("int64(binary.BigEndian.Uint64(rd.raw[rd.off:]))","rd_i64","Z")
+U32=A("binary.BigEndian.Uint32(rd.raw[rd.off:])","rd_u32","Z")
+UV=[P("uv","Z"),P("uv_n","Z")]
+VI=[P("vi","Z"),P("vi_n","Z")]
+CUV=G3("rd.getUVarint","get_uvarint","raw_len uv uv_n")
+RNG="option (Z * Z)"
+STR_N=A("string(rd.raw[rd.off:rd.off + n])","(Some (${rd.off}, ${rd.off} + v_n))",RNG)
+STR_L=A("string(rd.raw[rd.off:rd.off + length])","(Some (${rd.off}, ${rd.off} + v_length))",RNG)
+EMPTY=A('""',"None",RNG)
+def fixed(name,fn,atom,par):
+    return {"name":name,"file":"real_decoder.go","func":"realDecoder."+fn,"ideal_int":True,"state":RD,"params":RL+[P(par,"Z")],
+            "atoms":[LEN,atom]+ERRS("ErrInsufficientData"),"calls":[REM]}
+def arr_head(name,fn,width_doc):
+    return {"name":name,"file":"real_decoder.go","func":"realDecoder."+fn,"ideal_int":True,
+            "doc":"the count field and its checks, before the element loop (ExFall = n elements of "+width_doc+" follow at off)",
+            "slice":{"first":"if rd.remaining() < 4","last":"if n < 0","results":["n"]},
+            "state":RD,"params":RL+[P("rd_u32","Z")],"atoms":[LEN,U32]+ERRS("ErrInsufficientData","errInvalidArrayLength"),"calls":[REM],
+            "result_types":{"0":"unit"},"nil":{"[]int32":"tt","[]int64":"tt","[]string":"tt"}}
+C10=[
+ {"name":"remaining","file":"real_decoder.go","func":"realDecoder.remaining","ideal_int":True,
+  "params":[P("off","Z")]+RL,"atoms":[A("rd.off","off","Z"),LEN]},
+ fixed("get_int8","getInt8",A("int8(rd.raw[rd.off])","rd_i8","Z"),"rd_i8"),
+ fixed("get_int16","getInt16",BE16,"rd_i16"),
+ fixed("get_int32","getInt32",BE32,"rd_i32"),
+ fixed("get_int64","getInt64",BE64,"rd_i64"),
+ {"name":"get_varint","file":"real_decoder.go","func":"realDecoder.getVarint","ideal_int":True,"state":RD,"params":RL+VI,
+  "atoms":[LEN,AM("binary.Varint(rd.raw[rd.off:])",["vi","vi_n"],["Z","Z"])]+ERRS("ErrInsufficientData","errVarintOverflow")},
+ {"name":"get_uvarint","file":"real_decoder.go","func":"realDecoder.getUVarint","ideal_int":True,"state":RD,"params":RL+UV,
+  "atoms":[LEN,AM("binary.Uvarint(rd.raw[rd.off:])",["uv","uv_n"],["Z","Z"])]+ERRS("ErrInsufficientData","errUVarintOverflow")},
+ {"name":"get_array_length","file":"real_decoder.go","func":"realDecoder.getArrayLength","ideal_int":True,"state":RD,"params":RL+[P("rd_i32","Z")],
+  "atoms":[LEN,BE32]+ERRS("ErrInsufficientData","errInvalidArrayLength"),"calls":[REM]},
+ {"name":"get_compact_array_length","file":"real_decoder.go","func":"realDecoder.getCompactArrayLength","ideal_int":True,"state":RD,"params":RL+UV,
+  "atoms":[LEN]+ERRS("ErrInsufficientData"),"calls":[REM,CUV]},
+ {"name":"get_bool","file":"real_decoder.go","func":"realDecoder.getBool","ideal_int":True,"state":RD,"params":RL+[P("rd_i8","Z")],
+  "atoms":ERRS("errInvalidBool"),"calls":[G3("rd.getInt8","get_int8","raw_len rd_i8")]},
+ {"name":"get_empty_tagged_field_array","file":"real_decoder.go","func":"realDecoder.getEmptyTaggedFieldArray","ideal_int":True,"state":RD,"params":RL+UV,
+  "atoms":ERRS("errUnsupportedTaggedFields"),"calls":[CUV]},
+ {"name":"get_raw_bytes","file":"real_decoder.go","func":"realDecoder.getRawBytes","ideal_int":True,"state":RD,"params":RL,
+  "atoms":[LEN,A("rd.raw[start:rd.off]","(Some (v_start, ${rd.off}))",RNG)]+ERRS("ErrInsufficientData","errInvalidByteSliceLength"),
+  "calls":[REM],"result_types":{"0":RNG}},
+ {"name":"get_bytes","file":"real_decoder.go","func":"realDecoder.getBytes","ideal_int":True,"state":RD,"params":RL+[P("rd_i32","Z")],
+  "calls":[G3("rd.getInt32","get_int32","raw_len rd_i32"),G3o("rd.getRawBytes","get_raw_bytes","$0 raw_len")],"result_types":{"0":RNG}},
+ {"name":"get_varint_bytes","file":"real_decoder.go","func":"realDecoder.getVarintBytes","ideal_int":True,"state":RD,"params":RL+VI,
+  "calls":[G3("rd.getVarint","get_varint","raw_len vi vi_n"),G3o("rd.getRawBytes","get_raw_bytes","$0 raw_len")],"result_types":{"0":RNG}},
+ {"name":"get_compact_bytes","file":"real_decoder.go","func":"realDecoder.getCompactBytes","ideal_int":True,"state":RD,"params":RL+UV,
+  "calls":[CUV,G3o("rd.getRawBytes","get_raw_bytes","$0 raw_len")],"result_types":{"0":RNG}},
+ {"name":"get_string_length","file":"real_decoder.go","func":"realDecoder.getStringLength","ideal_int":True,"state":RD,"params":RL+[P("rd_i16","Z")],
+  "atoms":[LEN]+ERRS("ErrInsufficientData","errInvalidStringLength"),"calls":[REM,G3("rd.getInt16","get_int16","raw_len rd_i16")]},
+ {"name":"get_string","file":"real_decoder.go","func":"realDecoder.getString","ideal_int":True,"state":RD,"params":RL+[P("rd_i16","Z")],
+  "atoms":[STR_N,EMPTY],"calls":[G3("rd.getStringLength","get_string_length","raw_len rd_i16")],"result_types":{"0":RNG}},
+ {"name":"get_nullable_string","file":"real_decoder.go","func":"realDecoder.getNullableString","ideal_int":True,"state":RD,"params":RL+[P("rd_i16","Z")],
+  "atoms":[STR_N,A("&tmpStr","v_tmpStr",RNG)],"calls":[G3("rd.getStringLength","get_string_length","raw_len rd_i16")],"result_types":{"0":RNG},"trust_locals":["tmpStr"]},
+ {"name":"get_compact_string","file":"real_decoder.go","func":"realDecoder.getCompactString","ideal_int":True,"state":RD,"params":RL+UV,
+  "atoms":[LEN,STR_L,EMPTY]+ERRS("ErrInsufficientData","errInvalidStringLength"),"calls":[REM,CUV],"result_types":{"0":RNG}},
+ {"name":"get_compact_nullable_string","file":"real_decoder.go","func":"realDecoder.getCompactNullableString","ideal_int":True,"state":RD,"params":RL+UV,
+  "atoms":[LEN,STR_L,A("&tmpStr","v_tmpStr",RNG)]+ERRS("ErrInsufficientData"),"calls":[REM,CUV],"result_types":{"0":RNG},"trust_locals":["tmpStr"]},
+ {"name":"compact_int32_array_head","file":"real_decoder.go","func":"realDecoder.getCompactInt32Array","ideal_int":True,
+  "doc":"the count varint and its checks, before the element loop (ExFall = arrayLength int32 elements follow at off)",
+  "slice":{"first":"n, err := rd.getUVarint()","last":"arrayLength := int(n) - 1","results":["arrayLength"]},
+  "state":RD,"params":RL+UV,"atoms":[LEN]+ERRS("ErrInsufficientData"),"calls":[REM,CUV],
+  "result_types":{"0":"unit"},"nil":{"[]int32":"tt"}},
+ arr_head("int32_array_head","getInt32Array","4 bytes"),
+ arr_head("int64_array_head","getInt64Array","8 bytes"),
+ arr_head("string_array_head","getStringArray","at least 2 bytes"),
+ {"name":"get_subset","file":"real_decoder.go","func":"realDecoder.getSubset","ideal_int":True,"state":RD,"params":RL,
+  "atoms":[A("&realDecoder{raw: buf}","v_buf",RNG)],
+  "calls":[G3o("rd.getRawBytes","get_raw_bytes","$0 raw_len")],"result_types":{"0":RNG}},
+ {"name":"peek","file":"real_decoder.go","func":"realDecoder.peek","ideal_int":True,"params":[P("off0","Z")]+RL,
+  "atoms":[A("rd.off","off0","Z"),A("&realDecoder{raw: rd.raw[off:off + length]}","(Some (v_off, v_off + ${length}))",RNG)]+ERRS("ErrInsufficientData"),
+  "calls":[C("rd.remaining","remaining off0 raw_len","Z")],"result_types":{"0":RNG}},
+ {"name":"peek_int8","file":"real_decoder.go","func":"realDecoder.peekInt8","ideal_int":True,"params":[P("off0","Z")]+RL,
+  "doc":"the bounds test (ExFall = the byte at off+offset is returned)","slice":{"first":"if rd.remaining() < (offset + byteLen)","inputs":["offset"]},
+  "atoms":[A("rd.off","off0","Z")]+ERRS("ErrInsufficientData"),
+  "calls":[C("rd.remaining","remaining off0 raw_len","Z")]},
+]
+dump("C10","real_decoder.go: the bounds / negativity / limit decisions of the realDecoder primitive getters (which error, or success, and the new offset).",C10)
